@@ -263,9 +263,12 @@ pub fn gen_graph_project(rng: &mut Rng, o: &GraphOpts, n: usize, edges: &BTreeSe
         p.add_file(path, B::s(data));
     }
     let linked = o.symlinks && rng.chance(1, 3);
+    // the link's name differs from case to case: what one case taught a long-lived process about
+    // a path must not be what the next case relies on
+    let lnk_name = format!("lnk{}", rng.below(1000));
     if linked {
         p.entries.push(Entry::Symlink {
-            path: "lnk".into(),
+            path: lnk_name.clone(),
             target: "sub".into(),
         });
     }
@@ -360,7 +363,7 @@ pub fn gen_graph_project(rng: &mut Rng, o: &GraphOpts, n: usize, edges: &BTreeSe
             let x = rel_path(&dir, &outs[*dj]);
             let x = if linked && outs[*dj].starts_with("sub/") && rng.chance(1, 2) {
                 // the same file through the symlinked directory
-                rel_path(&dir, &format!("lnk/{}", &outs[*dj][4..]))
+                rel_path(&dir, &format!("{lnk_name}/{}", &outs[*dj][4..]))
             } else {
                 x
             };
@@ -553,7 +556,13 @@ fn gen_free_element(
                 } else {
                     // now and then a backslash in the file name (an ordinary character here)
                     let name = if rng.chance(1, 10) {
-                        format!("t{i}_{temp_ctr}\\part.tmp")
+                        // (the part before the backslash may be the name of a directory that exists)
+                        let head = match tdir {
+                            "" => *rng.pick(&["sub", "lib", "nodir"]),
+                            "sub" => *rng.pick(&["deep", "other", "nodir"]),
+                            _ => "nodir",
+                        };
+                        format!("{head}\\t{i}_{temp_ctr}.tmp")
                     } else {
                         format!("t{i}_{temp_ctr}.tmp")
                     };
@@ -753,10 +762,13 @@ pub fn r_inputs(p: &Project, a: &Analysis, base: &str, inputs: &[String], recurs
 
 /// A seeded input selection for graph engines: always resolvable, never empty.
 pub fn gen_inputs(rng: &mut Rng, a: &Analysis, aliases: bool) -> (Vec<String>, bool) {
-    gen_inputs_l(rng, a, aliases, false)
+    gen_inputs_l(rng, a, aliases, None)
 }
 
-pub fn gen_inputs_l(rng: &mut Rng, a: &Analysis, aliases: bool, has_link: bool) -> (Vec<String>, bool) {
+/// `link`: name of the root-level link to `sub`, if the project has one
+pub fn gen_inputs_l(rng: &mut Rng, a: &Analysis, aliases: bool, link: Option<&str>) -> (Vec<String>, bool) {
+    let has_link = link.is_some();
+    let lnk_name = link.unwrap_or("lnk");
     let n = a.n();
     let recursive = !rng.chance(1, 5);
     match rng.below(10) {
@@ -806,7 +818,7 @@ pub fn gen_inputs_l(rng: &mut Rng, a: &Analysis, aliases: bool, has_link: bool) 
                 }
                 if aliases && has_link && s.out.starts_with("sub/") && rng.chance(1, 2) {
                     // and once more through the symlinked directory
-                    v.push(format!("lnk/{}", &s.out[4..]));
+                    v.push(format!("{lnk_name}/{}", &s.out[4..]));
                 }
             }
             (v, recursive)
